@@ -45,13 +45,13 @@ func (s step) String() string {
 // {start,stop,delete} x tasks (start only when stopped, stop/delete only when
 // executing) and the two write steps Ws (burst, then wait for the fork) and Wn
 // (burst, no wait: the next lifecycle call races with the forking goroutine),
-// keeping those with at least one write.
+// keeping those with at least one write in which every task appears.
 func histories(ids []string, n int, f func([]step)) {
 	exec := map[string]bool{}
 	var rec func(h []step, writes int)
 	rec = func(h []step, writes int) {
 		if len(h) == n {
-			if writes > 0 {
+			if writes > 0 && allAppear(ids, h) {
 				f(h)
 			}
 			return
@@ -87,6 +87,24 @@ var interference = [][]step{
 	{{"start", "t1"}, {"start", "t2"}, {"Wn", ""}, {"stop", "t1"}, {"Ws", ""}},
 	{{"start", "t2"}, {"start", "t1"}, {"delete", "t1"}, {"Wn", ""}, {"start", "t1"}, {"Ws", ""}},
 	{{"startfail", "t1"}, {"start", "t2"}, {"Wn", ""}, {"startfail", "t1"}, {"Ws", ""}},
+}
+
+// allAppear: a history that never touches one of the tasks is a history of the
+// smaller task set, which is enumerated (to a greater length) on its own.
+func allAppear(ids []string, h []step) bool {
+	for _, id := range ids {
+		found := false
+		for _, s := range h {
+			if s.t == id {
+				found = true
+				break
+			}
+		}
+		if !found {
+			return false
+		}
+	}
+	return true
 }
 
 func runHistory(w *World, t *rt.Trace, tasks map[string]Shape, h []step, mode string) {
@@ -167,10 +185,10 @@ func Run(r *rt.Run) error {
 	tx := r.NewTrace("mix") // targeted two-task histories, triples, random histories
 	tc := r.NewTrace("conc")
 
-	singleLen, pairLen, nTriples, tripleLen, nInterf := 4, 3, 4, 3, 4
+	singleLen, pairLen, pairDeepLen, nPairsDeep, tripleLen, nTriples, tripleDeepLen, nTriplesDeep, nInterf := 4, 3, 4, 8, 4, 6, 0, 0, 4
 	nRandom, nConc := 250, 150
 	if r.Thorough() {
-		singleLen, pairLen, nTriples, tripleLen, nInterf = 6, 4, 12, 4, len(interference)
+		singleLen, pairLen, pairDeepLen, nPairsDeep, tripleLen, nTriples, tripleDeepLen, nTriplesDeep, nInterf = 6, 4, 5, 10, 4, 30, 5, 3, len(interference)
 		nRandom, nConc = 2000, 1000
 	}
 	count := 0
@@ -217,13 +235,17 @@ func Run(r *rt.Run) error {
 			}
 		}
 	}
-	// triples: seeded sample of shape triples, every history
+	rshape := func() Shape { return catalogue[r.Rand.Intn(len(catalogue))] }
+	// a seeded sample of pairs one step deeper
+	for n := 0; n < nPairsDeep; n++ {
+		explore(tx, map[string]Shape{"t1": rshape(), "t2": rshape()}, pairDeepLen)
+	}
+	// triples: seeded samples of shape triples, every history
 	for n := 0; n < nTriples; n++ {
-		explore(tx, map[string]Shape{
-			"t1": catalogue[r.Rand.Intn(len(catalogue))],
-			"t2": catalogue[r.Rand.Intn(len(catalogue))],
-			"t3": catalogue[r.Rand.Intn(len(catalogue))],
-		}, tripleLen)
+		explore(tx, map[string]Shape{"t1": rshape(), "t2": rshape(), "t3": rshape()}, tripleLen)
+	}
+	for n := 0; n < nTriplesDeep; n++ {
+		explore(tx, map[string]Shape{"t1": rshape(), "t2": rshape(), "t3": rshape()}, tripleDeepLen)
 	}
 	systematic := count
 	for i := 0; i < nRandom; i++ {
@@ -238,12 +260,14 @@ func Run(r *rt.Run) error {
 	r.Extra["catalogue_shapes"] = len(catalogue)
 	r.Extra["single_task_history_len"] = singleLen
 	r.Extra["task_pair_history_len"] = pairLen
+	r.Extra["task_pairs_sampled_deeper"] = fmt.Sprintf("%d pairs at length %d", nPairsDeep, pairDeepLen)
 	r.Extra["task_triple_history_len"] = tripleLen
 	r.Extra["task_triples_sampled"] = nTriples
+	r.Extra["task_triples_sampled_deeper"] = fmt.Sprintf("%d triples at length %d", nTriplesDeep, tripleDeepLen)
 	r.Extra["targeted_two_task_histories_per_ordered_pair"] = nInterf
 	r.Extra["stuck_lifecycle_calls"] = lab.hangs
 	r.Finish(fmt.Sprintf("real TaskMaster; tasks are TICKscripts with |log().prefix('<task>/<k>') under every from(); "+
-		"every history of exactly the given length over {start,stop,delete} per task (only when applicable) + {burst and wait for fork, burst without waiting} "+
+		"every history of exactly the given length in which every task appears over {start,stop,delete} per task (only when applicable) + {burst and wait for fork, burst without waiting} "+
 		"(a burst = 4 WritePoints calls x 4 points over 4 dbrps x 2 measurements x 2 tag values, alternately Go API and HTTP /write) "+
 		"for every one of %d catalogue shapes alone (length %d), every unordered pair (%d pairs, length %d), %d seeded triples (length %d); "+
 		"targeted two-task histories of length 4-6 for every ordered pair (stop/delete/restart/failed start of one task, then write: the other task must get everything); "+
